@@ -60,6 +60,14 @@ from ..utils import charge_conjugate_name
 from .enums import PhotosEnum, known_decay_models
 
 
+def _is_lone_end_line(line: str) -> bool:
+    """
+    Check whether the line only contains the 'End' statement,
+    possibly followed by a comment.
+    """
+    return re.match(r"^\s*End\s*(#.*)?$", line.lstrip("\ufeff")) is not None
+
+
 class DecFileNotParsed(RuntimeError):
     pass
 
@@ -116,13 +124,9 @@ class DecFileParser:
                 # "utf_8_sig" strips the unicode byte order mark, if present
                 with filename.open(encoding="utf_8_sig") as file:
                     for line in file:
-                        # We need to strip the unicode byte ordering if present before checking for *
-                        beg = line.lstrip("\ufeff").lstrip()
-                        # Make sure one discards all lines "End"
+                        # Make sure one discards all (lone) lines "End"
                         # in intermediate files, to avoid a parsing error
-                        if not (
-                            beg.startswith("End") and not beg.startswith("Enddecay")
-                        ):
+                        if not _is_lone_end_line(line):
                             stream.write(line)
                     stream.write("\n")
 
